@@ -49,14 +49,22 @@ type M = map[string]interface{}
 
 // ------------------------------------------------------------------ scenario
 type nicSpec struct {
-	ID      int      `json:"id"`
-	MTU     int      `json:"mtu"`
-	MAC     string   `json:"mac"`
-	Kind    string   `json:"kind"` // "ip" | "eth"
-	Resolve bool     `json:"resolve"`
-	Offload bool     `json:"offload"`
-	Addr4   []string `json:"addr4"`
-	Addr6   []string `json:"addr6"`
+	ID      int    `json:"id"`
+	MTU     int    `json:"mtu"`
+	MAC     string `json:"mac"`
+	Kind    string `json:"kind"` // "ip" | "eth"
+	Resolve bool   `json:"resolve"`
+	Offload bool   `json:"offload"`
+	// Responder: a peer on the wire of this NIC that answers every ARP request / neighbour
+	// solicitation the stack emits: addresses listed in Table with their MAC, any other
+	// address (proxy-ARP style) with Proxy when that is set.
+	Responder *responderSpec `json:"responder"`
+	Addr4     []string       `json:"addr4"`
+	Addr6     []string       `json:"addr6"`
+}
+type responderSpec struct {
+	Table map[string]string `json:"table"`
+	Proxy string            `json:"proxy"`
 }
 type routeSpec struct {
 	Dst  string `json:"dst"`
@@ -210,6 +218,9 @@ type nicRT struct {
 	hold  map[int]bool
 	q     chan frame
 	ndata int
+	resp  map[string]tcpip.LinkAddress // responder table keyed by raw address bytes
+	proxy tcpip.LinkAddress
+	rq    chan frame // answers of the responder, delivered by its own goroutine
 }
 
 type sock struct {
@@ -331,6 +342,9 @@ func (r *runner) onEmit(n *nicRT, proto tcpip.NetworkProtocolNumber, b []byte, r
 	r.seg.log(M{"ev": "emit", "host": n.host.id, "nic": n.spec.ID, "proto": int(proto), "raw": ints(b),
 		"rmac": ints([]byte(rmac)), "i": label(proto, b)})
 	r.observe(n, proto, b)
+	if n.rq != nil {
+		r.respond(n, proto, b)
+	}
 	if n.peer != nil {
 		select {
 		case n.q <- frame{proto: proto, b: b, smac: n.mac}:
@@ -501,6 +515,73 @@ type rawPeer struct {
 	kick     chan struct{}
 	snd      uint32
 	haveSnd  bool
+}
+
+// respond: the responder on n's wire sees an emitted frame; an ARP request / neighbour solicitation
+// is answered (never synchronously: the answer goes through the responder's goroutine).
+func (r *runner) respond(n *nicRT, proto tcpip.NetworkProtocolNumber, b []byte) {
+	if proto == 0 {
+		e, err := wire.ParseEth(b)
+		if err != nil {
+			return
+		}
+		proto, b = tcpip.NetworkProtocolNumber(e.Type), e.Payload
+	}
+	macFor := func(a []byte) tcpip.LinkAddress {
+		if m, ok := n.resp[string(a)]; ok {
+			return m
+		}
+		return n.proxy
+	}
+	var f frame
+	switch proto {
+	case wire.ProtoARP:
+		a, err := wire.ParseARP(b)
+		if err != nil || a.Op != 1 {
+			return
+		}
+		m := macFor(a.TPA)
+		if m == "" {
+			return
+		}
+		f = frame{proto: wire.ProtoARP, b: wire.BuildARP(2, []byte(m), a.TPA, a.SHA, a.SPA), smac: m}
+	case wire.ProtoIPv6:
+		ip, err := wire.ParseIPv6(b)
+		if err != nil || ip.Next != 58 {
+			return
+		}
+		ic, err := wire.ParseICMPv6(ip.Src, ip.Dst, ip.Payload)
+		if err != nil || ic.Type != 135 || len(ic.Rest) < 20 {
+			return
+		}
+		target := append([]byte(nil), ic.Rest[4:20]...)
+		m := macFor(target)
+		if m == "" {
+			return
+		}
+		var rest [4]byte
+		rest[0] = 0x60
+		body := append(append([]byte{}, target...), append([]byte{2, 1}, []byte(m)...)...)
+		l4 := wire.BuildICMPv6(target, ip.Src, 136, 0, rest, body)
+		f = frame{proto: wire.ProtoIPv6, b: wire.BuildIPv6(target, ip.Src, 58, l4, 255), smac: m}
+	default:
+		return
+	}
+	select {
+	case n.rq <- f:
+	default:
+	}
+}
+
+func (r *runner) responderLoop(n *nicRT) {
+	for {
+		select {
+		case <-r.done:
+			return
+		case f := <-n.rq:
+			r.deliver(n, f)
+		}
+	}
 }
 
 func (r *runner) observe(n *nicRT, proto tcpip.NetworkProtocolNumber, b []byte) {
@@ -694,6 +775,17 @@ func (r *runner) setup() {
 				vh.Fatal("CreateNIC: %v", err)
 			}
 			h.nics[ns.ID] = n
+			if ns.Responder != nil {
+				n.resp = map[string]tcpip.LinkAddress{}
+				for a, m := range ns.Responder.Table {
+					n.resp[string(addrOf(a))] = wire.MAC(m)
+				}
+				if ns.Responder.Proxy != "" {
+					n.proxy = wire.MAC(ns.Responder.Proxy)
+				}
+				n.rq = make(chan frame, 256)
+				go r.responderLoop(n)
+			}
 			kind := ns.Kind
 			if kind == "" {
 				kind = "ip"
